@@ -11,6 +11,7 @@ import types
 from typing import Any, Callable, Optional, Sequence, TypeVar
 
 import numpy as np
+import onnx
 from typing_extensions import ParamSpec
 
 import onnxscript
@@ -43,11 +44,14 @@ def script_check(
 
 def _freeze_constant(value: Any) -> Any:
     """Copies a script-time constant that is a mutable container; everything else is shared."""
-    if isinstance(value, (list, dict, set, bytearray, np.ndarray)):
+    if isinstance(value, (list, dict, set, bytearray, np.ndarray, onnx.TensorProto, ir.Tensor)):
         try:
             return copy.deepcopy(value)
         except Exception:  # pylint: disable=broad-exception-caught
             return value
+    if type(value) is tuple:
+        # A tuple cannot change, the arrays / lists inside it can.
+        return tuple(_freeze_constant(item) for item in value)
     return value
 
 
